@@ -169,6 +169,7 @@ def step_transfer(ctx, sim, t, now, serials, la, lb, order):
 
 def run(ctx, build):
     R = ctx.try_runner('Tftp')
+    lib.corr_modules(ctx, SPEC, ['registry_corr'])     # the concurrent registry: real TFTPSubServers under a scheduler shim vs the model
     rng = ctx.rng
     nsess = 4000 if ctx.thorough else 45
     if ctx.widen:
